@@ -14,7 +14,7 @@ EXPLANATION = (
     "token::any builds one alternation holding every input tree in order, Checked::any and crate::any use it and compile "
     "that same tree.  "
     "(kinds, shared with C19) `any` rebuilds its input trees through fold_map; decompose / compose keep the variant, every child, the bounds of a repetition and the flags of a literal, so the union is the union of the inputs.")
-RULES = "C07.whole (= C01.whole: program vs. compositional reference language on the catalogue), C07.ctx (TABLE), C07.union / C07.iterate (EMIT, = C01.homo), C07.flag (EMIT: a literal's case flag is independent of enclosing branches), C07.any (EFFECT+WHO), C19.kinds (TABLE: the trees `any` rebuilds keep kinds, children, bounds, flags)"
+RULES = "C07.whole (= C01.whole: program vs. compositional reference language on the catalogue), C07.ctx (TABLE), C07.union / C07.iterate (EMIT, = C01.homo), C07.flag (EMIT: a literal's case flag is independent of enclosing branches), C07.any (EFFECT+WHO), C19.kinds + C19.order (TABLE: the trees `any` rebuilds keep kinds, children, bounds, flags), C07.text (= C01.text: text -> program vs. reference language, multi-character literals)"
 
 
 def run(ctx):
@@ -35,6 +35,11 @@ def run(ctx):
     from . import c19
     c19.rule_kinds(F, R)
     c19.rule_order(F, R)     # ... and every child stays under its own parent, in order
+    # the emission rules above treat a literal as one atom; a literal of several characters is not one (a quantifier or
+    # an alternation written next to it binds to its last character only unless the encoder groups it): the whole route
+    # from texts with multi-character literals in repetitions and alternations to the program language (= C01.text)
+    from . import parsecat
+    parsecat.report_semantics(F, R, "C07.text", ctx.tier, 4000)
 
 
 def rule_any(F, R):
